@@ -12,7 +12,7 @@
    is the statement that the counter has not wrapped below that bound). *)
 From Coq Require Import List NArith Arith Lia.
 From GmsmVerif Require Import Lib.Outcome SM3.SM3Spec SM3.HMACSpec SM3.HashSpec SM3.SM3Model
-  SM3.SM3Proofs SM3.SM3History SM3.HMACProofs Gen.SM3IV.
+  SM3.SM3Proofs SM3.SM3History SM3.HMACProofs SM3.SM3Heap SM3.SM3HeapProofs SM3.SM3Arith SM3.SM3ArithProofs SM3.SM3ModelConsts SM3.SM3ConstsProofs Gen.SM3IV Gen.SM3Consts.
 Import ListNotations.
 Open Scope N_scope.
 
@@ -120,6 +120,142 @@ Theorem C04_pbkdf2_via_hash_ops :
 Proof. exact pbkdf2_Key_spec. Qed.
 Print Assumptions C04_pbkdf2_via_hash_ops.
 
+(* (e) Slices with backing arrays (SM3/SM3Heap.v): unhandleMsg, the argument of Write, the argument
+   and result of Sum and pad's local msg are slices of arrays in a heap; append writes into spare
+   capacity or reallocates with ANY growth policy [grow] that returns at least the needed length.
+
+   Write: called with a slice p of an array other than the one the object holds, it does not write
+   p's array nor any array but its own, the slice it keeps afterwards lies in its old array or in a
+   fresh one (never in p's), and at the value level it is the Write of SM3Model. *)
+Theorem C04_Write_never_keeps_or_writes_callers_array :
+  forall grow, (forall c n, (n <= grow c n)%nat) ->
+  forall hp s p hp' s' n,
+    valid hp (hs_unhandleMsg s) -> valid hp p -> sl_arr p <> sl_arr (hs_unhandleMsg s) ->
+    h_Write grow hp s p = (hp', s', n) ->
+    arr_get hp' (sl_arr p) = arr_get hp (sl_arr p) /\
+    (forall id, (id < length hp)%nat -> id <> sl_arr (hs_unhandleMsg s) -> arr_get hp' id = arr_get hp id) /\
+    sl_arr (hs_unhandleMsg s') <> sl_arr p /\
+    (sl_arr (hs_unhandleMsg s') = sl_arr (hs_unhandleMsg s) \/ (length hp <= sl_arr (hs_unhandleMsg s'))%nat) /\
+    valid hp' (hs_unhandleMsg s') /\
+    Write (abs hp s) (slice_bytes hp p) = (abs hp' s', n).
+Proof. exact h_Write_frame. Qed.
+Print Assumptions C04_Write_never_keeps_or_writes_callers_array.
+
+(* Sum: same outcome as the value-level Sum; when it returns, [sum_frame] holds: the object's slice is
+   still valid and denotes the same bytes (pad only appended beyond its len), no third array changed,
+   in's array changed at most in the 32 cells after len(in) (not at all when cap(in)-len(in) < 32: the
+   result is then a fresh array), the result has len(in)+32 bytes and starts with in's bytes. *)
+Theorem C04_Sum_writes_only_spare_capacity :
+  forall grow, (forall c n, (n <= grow c n)%nat) ->
+  forall hp s in_,
+    valid hp (hs_unhandleMsg s) -> valid hp in_ -> sl_arr in_ <> sl_arr (hs_unhandleMsg s) ->
+    match h_Sum grow hp s in_ with
+    | Ok (hp', res) => Sum (abs hp s) (slice_bytes hp in_) = Ok (slice_bytes hp' res) /\ sum_frame hp s in_ hp' res
+    | Err e => Sum (abs hp s) (slice_bytes hp in_) = Err e
+    | Panic => Sum (abs hp s) (slice_bytes hp in_) = Panic
+    | Hang => Sum (abs hp s) (slice_bytes hp in_) = Hang
+    end.
+Proof. exact h_Sum_refines. Qed.
+Print Assumptions C04_Sum_writes_only_spare_capacity.
+
+(* Histories on the heap: New() in any heap, then any list of Write(p) / Sum(in) / Reset calls
+   interleaved with the caller storing into any cell of any array other than the one the object
+   currently holds (its own buffers after Write, the arrays Sum returned, ...) and allocating.  The
+   calls, read as value-level operations at the time they are made, give exactly the results of the
+   value model - hence (C04_hash_history) of the hash.Hash contract over GM/T 0004. *)
+Theorem C04_heap_history_refines :
+  forall grow, (forall c n, (n <= grow c n)%nat) ->
+  forall hp0 ops,
+    let '(hp1, s1) := h_New hp0 in
+    caller_ok grow hp1 s1 ops ->
+    let '(hp', s', tr) := hrun grow hp1 s1 ops in
+    run init (map fst tr) = (abs hp' s', map snd tr) /\ valid hp' (hs_unhandleMsg s').
+Proof. exact heap_history. Qed.
+Print Assumptions C04_heap_history_refines.
+
+Theorem C04_heap_history :
+  forall grow, (forall c n, (n <= grow c n)%nat) ->
+  forall hp0 ops,
+    let '(hp1, s1) := h_New hp0 in
+    caller_ok grow hp1 s1 ops ->
+    let '(_, _, tr) := hrun grow hp1 s1 ops in
+    map snd tr = ref_run sm3 [] (map fst tr).
+Proof.
+  intros grow Hg hp0 ops. pose proof (heap_history grow Hg hp0 ops) as H.
+  destruct (h_New hp0) as [hp1 s1]. intros Hok. specialize (H Hok).
+  destruct (hrun grow hp1 s1 ops) as [[hp' s'] tr]. destruct H as [H _].
+  pose proof (C04_hash_history (map fst tr)) as (Hh & _). rewrite H in Hh. exact Hh.
+Qed.
+Print Assumptions C04_heap_history.
+
+(* (f) Bit level.  The word operations the specification and the model share are arithmetic:
+   truncation is mod 2^32, [+] is addition mod 2^32, complement is 2^32-1-x, x <<< n is
+   (x * 2^k) mod 2^32 + x / 2^(32-k) with k = n mod 32 (the last two on words below 2^32). *)
+Theorem C04_word_ops_are_arithmetic :
+  forall x n a b,
+    trunc32 x = x mod 2 ^ 32 /\
+    add32 a b = (a + b) mod 2 ^ 32 /\
+    (x < 2 ^ 32 -> not32 x = 2 ^ 32 - 1 - x) /\
+    (x < 2 ^ 32 -> rotl32 x n = (x * 2 ^ (n mod 32)) mod 2 ^ 32 + x / 2 ^ (32 - n mod 32)).
+Proof. exact word_ops_arith. Qed.
+Print Assumptions C04_word_ops_are_arithmetic.
+
+(* ... and every value the compression function computes from a state of words below 2^32 and a block
+   of bytes below 2^8 is a word below 2^32: W_0..W_67, the registers after any number of rounds, the
+   output - so the arithmetic reading applies at every point *)
+Theorem C04_compress_words_in_range :
+  forall a b c d e f g h B,
+    Forall w32 [a; b; c; d; e; f; g; h] -> Forall byte_ok B ->
+    Forall w32 (expand B) /\
+    (forall n, regs_w32 (fold_left (round (expand B)) (seq 0 n) (a, b, c, d, e, f, g, h))) /\
+    Forall w32 (sm3_cf [a; b; c; d; e; f; g; h] B).
+Proof. exact compress_in_range. Qed.
+Print Assumptions C04_compress_words_in_range.
+
+(* ... hence CF and the digest equal their transcriptions with arithmetic word operations
+   (SM3/SM3Arith.v: mod, +, *, /, - and bitwise xor/and/or only; big-endian conversions as base-256
+   digits) *)
+Theorem C04_cf_is_arithmetic :
+  forall V B, Forall w32 V -> Forall byte_ok B -> sm3_cf V B = cf_a V B /\ Forall w32 (sm3_cf V B).
+Proof. exact cf_arith. Qed.
+Print Assumptions C04_cf_is_arithmetic.
+
+Theorem C04_sm3_is_arithmetic :
+  forall m, Forall byte_ok m -> sm3 m = sm3_a m /\ Forall byte_ok (sm3 m).
+Proof. exact sm3_arith. Qed.
+Print Assumptions C04_sm3_is_arithmetic.
+
+(* (g) Translator tie for the round structure.  coq/Gen/SM3Consts.v is regenerated from the AST of
+   /repo/sm3/sm3.go on every run: rotation amounts of p0/p1/expansion/rounds, the two T constants, the
+   bounds of the five loops of update, array sizes [68]/[64], the index offsets w[i-16..i+4], block
+   size, digest size, the constants of pad (0x80, 56, the eight shifts and masks, %64), len(p)*8.
+   What the source says now is what the model hard-codes ... *)
+Theorem C04_constants_from_source : K_gen = K_model /\ gen_shape = model_shape.
+Proof. split; [exact K_gen_is_model|exact gen_shape_ok]. Qed.
+Print Assumptions C04_constants_from_source.
+
+(* ... and the model IS the constant-parametrised model (SM3/SM3ModelConsts.v) at the constants of the
+   source: editing a rotation amount, a T constant, a loop bound or a pad constant in sm3.go makes this
+   theorem fail, not only the correspondence run *)
+Theorem C04_model_uses_source_constants :
+  (forall w w1 r msg, block_body w w1 r msg = block_body_K K_gen w w1 r msg) /\
+  (forall s msg, update s msg = update_K K_gen s msg) /\
+  (forall s msg, update2 s msg = update2_K K_gen s msg) /\
+  (forall s, pad s = pad_K K_gen s) /\
+  (forall s p, Write s p = Write_K K_gen s p) /\
+  (forall s i, Sum s i = Sum_K K_gen s i) /\
+  BlockSize = k_BlockSize K_gen /\ Size = k_Size K_gen /\
+  (snd (k_sum_loop K_gen) * k_word K_gen = Size)%nat.
+Proof. exact model_uses_source_constants. Qed.
+Print Assumptions C04_model_uses_source_constants.
+
+(* the translator compared the statement lists of update and update2: identical up to the last
+   statements (store a..h into sm3.digest[0..7] / into a local array that is returned) - the model
+   shares one loop between the two *)
+Theorem C04_update2_same_text_as_update : gen_update2_same_as_update = true.
+Proof. reflexivity. Qed.
+Print Assumptions C04_update2_same_text_as_update.
+
 (* ---------- non-vacuity: concrete instances, evaluated ---------------------------------------------- *)
 (* a state with dirty scratch arrays and one block left: the hypotheses of (a) are met *)
 Example C04_compress_example :
@@ -160,3 +296,33 @@ Example C04_pbkdf2_example :
       0x77; 0x38; 0x3c; 0x78; 0xad; 0xe3; 0x0e; 0x32; 0x98; 0xed; 0xbd; 0x3e; 0x54; 0xed; 0x85; 0xb7;
       0x65; 0x00; 0x06; 0xf9; 0xe1; 0x5d; 0x37; 0x98].
 Proof. vm_compute. reflexivity. Qed.
+
+(* a heap history: the caller writes "abc" from its array 1, scribbles over that array, asks for the
+   digest with a nil prefix (fresh result array), scribbles over the result, writes again from the
+   same array, asks again with a prefix that has spare capacity.  Growth policy: needed + 100. *)
+Definition C04_heap_example_ops : list hop :=
+  [HAlloc [0x61; 0x62; 0x63]; HWrite (mkSlice 1 0 3 3); HStore 1 0 0xff; HStore 1 2 0xff;
+   HSum (mkSlice 1 0 0 0); HStore 3 0 0; HStore 3 31 0;
+   HAlloc ([7; 7; 7] ++ repeat 0 61); HSum (mkSlice 4 0 3 64); HReset; HSum (mkSlice 4 0 3 3)].
+
+Example C04_heap_example :
+  let grow := fun (_ n : nat) => (n + 100)%nat in
+  let '(hp1, s1) := h_New [] in
+  caller_ok grow hp1 s1 C04_heap_example_ops /\
+  let '(_, _, tr) := hrun grow hp1 s1 C04_heap_example_ops in
+  tr = [(OpWrite [0x61; 0x62; 0x63], OutWrite 3);
+        (OpSum [], OutSum (Ok (sm3 [0x61; 0x62; 0x63])));
+        (OpSum [7; 7; 7], OutSum (Ok ([7; 7; 7] ++ sm3 [0x61; 0x62; 0x63])));
+        (OpReset, OutReset);
+        (OpSum [7; 7; 7], OutSum (Ok ([7; 7; 7] ++ sm3 [])))].
+Proof.
+  vm_compute. repeat split; try lia; try (intro H; discriminate H).
+Qed.
+
+(* the arithmetic transcription on the standard's example A.1 *)
+Example C04_arith_example :
+  Forall byte_ok [0x61; 0x62; 0x63] /\
+  sm3_a [0x61; 0x62; 0x63] =
+  [0x66;0xc7;0xf0;0xf4; 0x62;0xee;0xed;0xd9; 0xd1;0xf2;0xd4;0x6b; 0xdc;0x10;0xe4;0xe2;
+   0x41;0x67;0xc4;0x87; 0x5c;0xf2;0xf7;0xa2; 0x29;0x7d;0xa0;0x2b; 0x8f;0x4b;0xa8;0xe0].
+Proof. split; [repeat constructor|vm_compute; reflexivity]. Qed.
